@@ -11,6 +11,10 @@ N_OF = '(len != -1 ? (unsigned long)len : sz - (unsigned long)offset)'
 
 PRELUDE = r'''
 #define VACUITY_PROBE() __CPROVER_assert(0, "vacuity-probe")
+/* string model "view": a std::string is its byte array and its length (ASSUMED: c_str() / size() return them) */
+struct strview { const char *data; unsigned long size; };
+const char *sv_c_str(const struct strview *s) { return s->data; }
+unsigned long sv_size(const struct strview *s) { return s->size; }
 /* ---- ghost state of K-chk ---- */
 unsigned long gi_out;        /* published at return: number of bytes the spec summed */
 unsigned gsum_out;           /* published at return: their sum mod 256 */
@@ -41,7 +45,10 @@ LOOP1_BEGIN = r'''
 UNIT = dict(
     name='k_chk',
     tu='tu/core.cpp',
-    emit=dict(calls={'fix8pro_collapse_int32': 'fix8pro_collapse_int32'}),
+    emit=dict(calls={'fix8pro_collapse_int32': 'fix8pro_collapse_int32',
+                     'calc_chksum|unsigned int (const char *, const size_t, const unsigned int, const int)': 'calc_chksum',
+                     'std::basic_string<char>::c_str': 'sv_c_str', 'std::basic_string<char>::size': 'sv_size'},
+              type_map=[(r'(FIX8::f8String|std::basic_string<char>|std::string)', 'struct strview')]),
     prelude=PRELUDE,
     functions=[
         dict(q='FIX8::fix8pro_collapse_int32', sig=None, cname='fix8pro_collapse_int32'),
@@ -81,8 +88,23 @@ UNIT = dict(
                          ],
                          decreases='elen - ii'),
              }),
+        dict(q='FIX8::Message::calc_chksum', sig='unsigned int (const FIX8::f8String &, const unsigned int, const int)', cname='calc_chksum_str'),
     ],
     postlude=r'''
+#include <stdlib.h>
+/* the std::string overload: hands exactly (bytes, size, offset, len) to the pointer overload, so its result is the byte sum of
+   [offset, offset+n) of the string -- proved from the pointer overload's CONTRACT (replaced call), i.e. modularly */
+void h_chk_str(void)
+{
+  struct strview s; unsigned offset; int len;
+  __CPROVER_assume(len >= -1 && s.size <= 2147483647ul && offset <= s.size && (len == -1 || (unsigned long)offset + (unsigned long)len <= s.size));
+  unsigned long n = len != -1 ? (unsigned long)len : s.size - offset;
+  char *bytes = malloc(offset + n); __CPROVER_assume(bytes != 0); s.data = bytes;       /* exactly the bytes that may be read */
+  unsigned r = calc_chksum_str(&s, offset, len);
+  __CPROVER_assert(r == gsum_out, "C07.str.sum_mod_256");
+  __CPROVER_assert(gi_out == n, "C07.str.exact_range");
+  VACUITY_PROBE();
+}
 void h_chk(void)
 {
   const char *from; unsigned long sz; unsigned offset; int len;
@@ -91,6 +113,8 @@ void h_chk(void)
 }
 ''',
     proofs=[
+        dict(name='chk_str', harness='h_chk_str', replace=['calc_chksum'], solvers=['cadical', 'z3'], timeout=dict(quick=120, thorough=300),
+             properties=['C07'], floor=5, level='proved-modular'),
         dict(name='chk', harness='h_chk', enforce=['calc_chksum'], loop_contracts=True,
              solvers=['cadical', 'z3'], timeout=dict(quick=120, thorough=300),
              # the 8-bit adder-tree equality gsum == G0+G1+G2+G3 is AC-normalised by z3 at once; SAT does not finish
